@@ -202,6 +202,9 @@ func (s *vState) setForwarding(iface string, v bool) {
 	s.forwarding[iface] = v
 }
 
+// vLogSink is where the daemon's log goes (a driver may install a sink that takes its time).
+var vLogSink io.Writer = io.Discard
+
 var vMAC = net.HardwareAddr{0xde, 0xad, 0xbe, 0xef, 0xde, 0xad}
 
 // vAdvertiser wires a real Advertiser to a vConn through a Dialer with a scripted DialFunc.
@@ -225,7 +228,7 @@ func newVAdvertiserW(cfg config.Interface, terminate func() bool, watchC <-chan 
 	v := &vAdvertiser{state: newVState()}
 	v.state.forwarding[cfg.Name] = true
 	v.mm = NewMetrics(metricslite.NewMemory(), "test", time.Time{}, v.state, []config.Interface{cfg})
-	cctx := NewContext(log.New(io.Discard, "", 0), v.mm, v.state)
+	cctx := NewContext(log.New(vLogSink, "", 0), v.mm, v.state)
 	v.conn = newVConn()
 	d := system.NewDialer(cfg.Name, v.state, system.Advertise, nil)
 	d.DialFunc = func() (*system.DialContext, error) {
